@@ -69,15 +69,15 @@ CLAIMS = {
         text="Round trip print->parse->print on every accepted document: monitor on the real code (re-parse ok with empty "
              "rest, equal canonical dump and PartialEq, identical second serialization) and tie against the model's printer "
              "and parser. Kernel-checked: `print_parse_roundtrip` (parse (print d) = (d, nothing left)) and `printer_fixpoint` "
-             "for EVERY printable document without DOCTYPE - the printer writes one rendering (`canonDoc`) "
+             "for EVERY printable document, XML declaration and DOCTYPE with internal subset included - the printer writes one rendering (`canonDoc`) "
              "and every rendering is parsed to the document it renders by the grammar translated from the current source "
              "(completeness proof of the PEG, C01 `rendering_parses`); the quoting rule is faithful exactly unless a value "
              "holds both quote kinds; the printer is a homomorphism on item lists; for every document the soundness half (a "
              "complete re-parse flattens to exactly the printed text).",
-        note="Partial: documents with a DOCTYPE are covered by monitor and tie only; the theorems hold for "
+        note="The theorems hold for "
              "every sufficient fuel (the model's own fuel formula is checked per input, not proved). Each run evaluates the "
-             "theorem's hypotheses on every accepted document of the run (evidence `theorem_reach`: all accepted documents of the "
-             "profile satisfy them). The proofs follow the translated grammar closely: a refactoring of a production breaks them "
+             "theorem's hypotheses on every accepted document of the run (evidence `theorem_reach`: ALL accepted documents of the run "
+             "satisfy them). The proofs follow the translated grammar closely: a refactoring of a production breaks them "
              "(reported with no-failing-input-found).",
         technique="Lean 4 proof (PEG completeness on renderings, abs(tree)=erase, printer = canonical rendering) + translator + differential correspondence of printer/parser + round-trip monitor",
         ref="DESIGN.md section 0 and section 6 C04"),
@@ -86,16 +86,17 @@ CLAIMS = {
              "empty rest and dump exactly the items the abstract value denotes (independent python oracle), and agree with the "
              "model. Kernel-checked: `rendering_parses` - EVERY concrete document (abstract document + all surface-syntax choices: "
              "white space in tags and around `=`, either quote, empty-element tag or start/end pair, Misc and white space around "
-             "the root) without DOCTYPE that meets the lexical side conditions of the productions is parsed "
+             "the root, the layout of the XML declaration and of every declaration of the internal subset incl. content models) "
+             "that meets the lexical side conditions of the productions is parsed "
              "completely to exactly the abstract document it renders, by the grammar translated from the current source; "
              "`surface_syntax_is_irrelevant`; what a character reference denotes for every number; the reported items are an "
              "abstraction of one derivation tree spelling exactly the consumed text; determinism.",
-        note="Partial: completeness for documents with a DOCTYPE is tied against the oracle, not proved; fuel as in C04. The infoset is compared in the raw view (the merged-text view is what the XPath checks C05-C10 compare). Oracle = tools/gen/xmlgen.py denote. Second oracle for "
+        note="Whole supported profile (XML declaration, Misc, DOCTYPE with internal subset, elements); parameter entities are outside (unsupported by the library); fuel as in C04. The infoset is compared in the raw view (the merged-text view is what the XPath checks C05-C10 compare). Oracle = tools/gen/xmlgen.py denote. Second oracle for "
              "acceptance: the REVIEWED grammar (tools/ref/xml.json, committed; regenerated into Gen/XmlGrammarRef.lean on every run): "
              "random derivations of it and of its parts, with keyword-prefixed names and one-character neighbours, must be accepted by "
              "the real parser whenever the model over the reviewed grammar accepts them. The reviewed snapshot is updated by hand "
              "(tools/translate.py --snapshot) after a grammar-changing fix: commit has been read against the Recommendation.",
-        technique="Lean 4 proof (PEG completeness on renderings; partial for prolog/DTD) + translator + differential correspondence against model and denotation oracle",
+        technique="Lean 4 proof (PEG completeness on renderings of the whole profile) + translator + differential correspondence against model and denotation oracle",
         ref="DESIGN.md section 0 and section 6 C01"),
     "C03": dict(
         text="Totality of the parse / infoset / print pipeline. Kernel-checked on the model (all inputs): every model function is a "
